@@ -134,12 +134,17 @@ TRUE = Const(True)
 FALSE = Const(False)
 
 
+_SERIAL = [0]      # creation order of container values (dict objects, lists, sets): "was it made before this loop?"
+
+
 class Obj(Val):
     _n = 0
 
     def __init__(self, cls, attrs=None, origin=None):
         Obj._n += 1
         self.oid = Obj._n
+        _SERIAL[0] += 1
+        self.serial = _SERIAL[0]
         self.cls = cls                 # ClassInfo or str (builtin/native kind)
         self.attrs = attrs if attrs is not None else {}
         self.origin = origin
@@ -188,6 +193,8 @@ class Seq(Val):
     def __init__(self, items, kind='tuple'):
         self.items = list(items)
         self.kind = kind
+        _SERIAL[0] += 1
+        self.serial = _SERIAL[0]
 
     def __repr__(self):
         return 'Seq%r' % (self.items,)
@@ -322,6 +329,7 @@ class Interp(object):
         self.loopctx = []
         self.preset = []
         self.decisions = []
+        self.reduce_flags = {}       # flag name of all(c)/any(c) -> (kind, c)
         self.depth = 0
         self.sym_kind = {}
         self.symmetric = set()
@@ -683,10 +691,37 @@ class Interp(object):
         if nat is not None:
             return nat(self, cls, args, kwargs, node)
         o = Obj(cls, {}, None)
+        o.via_init = True
         init = cls.find_method('__init__')
         if init is not None:
             self.call_function(self.make_func(init, o), args, kwargs, node)
         return o
+
+    def init_only_attr(self, o, name, node):
+        """`o` is an abstract world object that was assembled without running its constructor: an attribute the real
+        __init__ would have bound (a cache slot, a private helper table) is not absent.  A literal initial value is adopted;
+        anything else is outside the model (UNDECIDED), never an AttributeError of the analysed program."""
+        for c in o.cls.mro():
+            init = c.methods.get('__init__')
+            if init is None:
+                continue
+            for st in ast.walk(init.node):
+                if not isinstance(st, (ast.Assign, ast.AnnAssign)):
+                    continue
+                for t in (st.targets if isinstance(st, ast.Assign) else [st.target]):
+                    for tt in (t.elts if isinstance(t, (ast.Tuple, ast.List)) else [t]):
+                        if isinstance(tt, ast.Attribute) and tt.attr == name and isinstance(tt.value, ast.Name) and tt.value.id == 'self':
+                            v = st.value
+                            if isinstance(v, ast.Constant) and not isinstance(t, (ast.Tuple, ast.List)):
+                                o.attrs[name] = Const(v.value) if not isinstance(v.value, (int, float)) or isinstance(v.value, bool) \
+                                    else self.eval(v, Env(None))
+                                return o.attrs[name]
+                            if isinstance(v, (ast.Dict, ast.List, ast.Set)) and not (getattr(v, 'keys', None) or getattr(v, 'elts', None)):
+                                o.attrs[name] = self.eval(v, Env(None))
+                                return o.attrs[name]
+                            raise Unsupported('attribute %s is bound by %s.__init__, which the abstract %s object of this world did '
+                                              'not run' % (name, c.name, o.clsname), node)
+        return None
 
     def call_function(self, f, args, kwargs, node=None):
         if self.depth >= self.MAX_DEPTH:
@@ -697,6 +732,14 @@ class Interp(object):
         params = [x.arg for x in a.posonlyargs + a.args]
         args = list(args)
         decos = [ast.unparse(d_) for d_ in getattr(fnode, 'decorator_list', [])]
+        for d_ in decos:
+            base_ = d_.split('(')[0]
+            if base_ in ('staticmethod', 'classmethod', 'property', 'abc.abstractmethod', 'abstractmethod') or \
+                    base_.endswith('.setter') or base_.endswith('.getter'):
+                continue
+            # any other decorator replaces the function by something else (a memoising wrapper, a validator ...): calling
+            # the undecorated body would analyse a different program
+            raise Unsupported('function %s is wrapped by the decorator @%s, which is not modelled' % (f.name, d_), node)
         if 'staticmethod' in decos:
             pass                                    # no implicit first argument
         elif 'classmethod' in decos and f.selfobj is not None:
@@ -1033,6 +1076,13 @@ class Interp(object):
             if m is not None:
                 return self.call(m, [rhs], {}, node)
             return self.binop(op, cur, rhs, node)
+        if isinstance(cur, Arr) and op in ('Add', 'Sub', 'Mult', 'Div') and (cur.cells or self.has_cells(rhs)):
+            # stacks of matrices whose pair functions were stored at concrete positions: the operator acts entry by entry
+            t, cells = self.cell_arith(op, cur, rhs, node)
+            cur.t, cur.cells = t, cells
+            if not cur.fresh:
+                self.event('write', cur.origin, node, via='inplace', how=op)
+            return cur
         if isinstance(cur, Arr):
             t = self.arith(op, cur, rhs, node)
             self.check_inplace_broadcast(cur.t, rhs, node)
@@ -1046,7 +1096,11 @@ class Interp(object):
             self.write_view(cur, t, node, how=op)
             return cur
         if isinstance(cur, Masked):
-            raise Unsupported('in-place op on a masked copy', node)
+            # x = a[mask] is a new array (boolean indexing copies): the in-place operator changes that copy -- the object
+            # itself, so every name bound to it sees the new contents -- and never the array it was taken from
+            new = self.masked_arith(op, cur, rhs, node)
+            cur.t = new.t
+            return cur
         if isinstance(cur, Num) and self.loopctx and op in ('Add', 'Sub') and self.is_numeric(rhs):
             # scalar accumulation inside a loop over type labels: a sum over the loop's labels
             labels = []
@@ -1104,6 +1158,20 @@ class Interp(object):
         if isinstance(it, Types):
             it = self.lib.types_iter(self, it)
             return self.for_labels(st, env, it)
+        ae = self.array_elements(it, st)
+        if ae is not None:
+            n, elem = ae
+            if n.is_const() and 0 <= n.const_value() <= 64 and n.const_value().denominator == 1:
+                for i in range(int(n.const_value())):
+                    self.assign(st.target, Num(elem(N.NF.const(i)), 'scalar'), env, st)
+                    try:
+                        self.exec_block(st.body, env)
+                    except _Continue:
+                        continue
+                    except _Break:
+                        break
+                return
+            return self.for_sum(st, env, N.NF.const(0), n, N.NF.const(1), elem=elem)
         if isinstance(it, Obj):
             m = self.find_method(it, '__iter__')
             if m is not None:
@@ -1122,9 +1190,23 @@ class Interp(object):
                     return
         raise Unsupported('iteration over %r' % (it,), st)
 
+    def touch(self, c, mode, node=None):
+        """a dict / list / set that was created BEFORE the enclosing symbolic loop over types or pairs is read and written in
+        the loop body: it carries state from one iteration to the next (a cache of already computed entries, a seen-set).
+        The body is executed once for a symbolic element, which cannot represent that -- undecided, never a silent pass."""
+        for ctx in self.loopctx:
+            if 'serial0' in ctx and getattr(c, 'serial', 1 << 60) <= ctx['serial0']:
+                modes = ctx.setdefault('carried', {}).setdefault(id(c), set())
+                modes.add(mode)
+                if len(modes) == 2:
+                    raise Unsupported('a container created before the loop over %s is both read and written inside it (state '
+                                      'carried from one iteration to the next, e.g. a cache): one symbolic iteration does not '
+                                      'represent that' % ctx.get('desc', 'types'), node)
+
     def for_labels(self, st, env, it):
         elem, ctx = it.make(self)
         ctx = dict(ctx)
+        ctx['serial0'] = _SERIAL[0]
         ctx['loc'] = self.loc(st)
         ctx['node'] = st
         ctx['desc'] = it.desc
@@ -1202,7 +1284,27 @@ class Interp(object):
             return 'ordered-offdiag'
         return 'unknown'
 
-    def for_sum(self, st, env, lo, hi, step):
+    def array_elements(self, it, node):
+        """`for a in <1-d array>` where the array is a closed-form function of its own index vector (c0*t + c1*t**2 with
+        t = np.arange(n), no other array involved): (n, element as a function of the position) -- else None"""
+        if not isinstance(it, (Arr, View, Num)) or getattr(it, 'kind', None) != 'array':
+            return None
+        t, _ = self.term_of(it, node)
+        if P.is_pw(t):
+            return None
+        iotas = {a for a in t.all_atoms() if a[0] == 'fn' and a[1] == 'iota'}
+        others = [a for a in t.all_atoms() if (a[0] == 'sym' and self.sym_kind.get(a[1], 'scalar') != 'scalar') or
+                  (a[0] == 'fn' and a[1] != 'iota' and self.atom_is_array(a))]
+        if len(iotas) != 1 or others:
+            return None
+        io = next(iter(iotas))
+        n = N.nf_from_key(io[2])
+
+        def elem(pos):
+            return N.transform(t, lambda a: pos if a == io else None)
+        return n, elem
+
+    def for_sum(self, st, env, lo, hi, step, elem=None):
         """`for i in range(lo,hi)` with symbolic bounds: accumulations become Sum terms"""
         if not (step.is_const() and step.const_value() == 1):
             raise Unsupported('symbolic range with a step', st)
@@ -1223,7 +1325,7 @@ class Interp(object):
             ph[a.aid] = name
             a.t = N.sym(name)
         before = set(env.vars)
-        env.set(st.target.id, Num(N.sym(var), 'scalar'))
+        env.set(st.target.id, Num(N.sym(var) if elem is None else elem(N.sym(var)), 'scalar'))
         try:
             try:
                 self.exec_block(st.body, env)
@@ -1322,7 +1424,9 @@ class Interp(object):
         if v is None or isinstance(v, (bool, str, bytes)):
             return Const(v)
         if isinstance(v, int):
-            return const_num(v)
+            r = const_num(v)
+            r.inty = True             # a Python int: arithmetic with other ints stays integer-typed
+            return r
         if isinstance(v, float):
             fr = self.frames[-1] if self.frames else None
             text = None
@@ -1433,7 +1537,7 @@ class Interp(object):
                         raise Unsupported('module attribute %s is not modelled' % name, node)
                     raise Raised('AttributeError', name, self.loc(node))
                 return self.wrap_resolved(r, node)
-            if name in o.attrs:
+            if name in o.attrs and o.cls != 'dict':        # (a dict object keeps its contents under the key 'items')
                 return o.attrs[name]
             if isinstance(o.cls, ClassInfo):
                 g = o.cls.find_getter(name)
@@ -1455,6 +1559,10 @@ class Interp(object):
                 # an object of a *library* class that is only partially modelled (pint Quantity, OptimizeResult ...):
                 # an attribute outside the model is unknown, not absent
                 raise Unsupported('attribute %s of library object %s is not modelled' % (name, o.clsname), node)
+            if not getattr(o, 'via_init', False):
+                v = self.init_only_attr(o, name, node)
+                if v is not None:
+                    return v
             raise Raised('AttributeError', '%s object has no attribute %s' % (o.clsname, name),
                          self.loc(node))
         if isinstance(o, ClassRef):
@@ -1475,6 +1583,9 @@ class Interp(object):
             return self.lib.types_attr(self, o, name, node)
         if isinstance(o, Mask) and name == 'shape':
             return Obj('shape', {'arr': o})
+        if isinstance(o, Mask) and name in ('all', 'any') and getattr(o, 'indexcmp', None) is None:
+            red = self.lib.np_reduce(name)
+            return Native('ndarray.' + name, lambda ip, m_, a, k, n: red(ip, [m_] + list(a), k, n), o)
         if isinstance(o, Mask) and name == 'astype' and getattr(o, 'indexcmp', None) is None:
             return Native('ndarray.astype', self.lib.nd_astype, o)
         if isinstance(o, Const) and isinstance(o.v, tuple):
@@ -1676,10 +1787,62 @@ class Interp(object):
             return Seq(a.items + b.items, a.kind)
         if isinstance(a, Masked) or isinstance(b, Masked):
             return self.masked_arith(op, a, b, node)
+        if op in ('Add', 'Sub', 'Mult', 'Div') and (self.has_cells(a) or self.has_cells(b)):
+            t, cells = self.cell_arith(op, a, b, node)
+            r = self.fresh_array(t)
+            r.cells = cells
+            return r
         t = self.arith(op, a, b, node)
         kind = 'array' if any(getattr(x, 'kind', 'scalar') == 'array' or isinstance(x, Seq)
                               for x in (a, b)) else 'scalar'
-        return self.make_result(t, kind)
+        r = self.make_result(t, kind)
+        # integer-typedness (may-be-int, default: float): int (+,-,*,//,%) int is int; int ** non-negative int literal is int;
+        # everything else -- true division above all -- is floating point
+        if self.inty(a) and self.inty(b):
+            if op in ('Add', 'Sub', 'Mult', 'FloorDiv', 'Mod') or (
+                    op == 'Pow' and is_const_num(b) and num_value(b) >= 0 and num_value(b).denominator == 1):
+                r.inty = True
+        return r
+
+    @staticmethod
+    def inty(x):
+        while isinstance(x, View):
+            x = x.base
+        return bool(getattr(x, 'inty', False)) or (isinstance(x, Const) and isinstance(x.v, bool))
+
+    @staticmethod
+    def has_cells(x):
+        while isinstance(x, View) and x.idx == ('all',):
+            x = x.base
+        return isinstance(x, Arr) and bool(x.cells)
+
+    def cell_arith(self, op, a, b, node):
+        """(base term, cells) of `a <op> b` where at least one operand is a stack of matrices with concretely stored pair
+        functions [:, i, j]; the other is such a stack too, a whole-tensor term, or a scalar / curve broadcast to every entry"""
+        def unwrap(x):
+            while isinstance(x, View) and x.idx == ('all',):
+                x = x.base
+            return x
+        a, b = unwrap(a), unwrap(b)
+        keys = set()
+        for x in (a, b):
+            if isinstance(x, Arr) and x.cells:
+                keys |= set(x.cells)
+
+        def base(x):
+            if isinstance(x, Arr):
+                return x.t
+            return self.term_of(x, node)[0]
+
+        def cell(x, i, j):
+            if isinstance(x, Arr) and (x.cells or self.lead_kinds(x.t) & {'tensor', 'mat1'} or not self.lead_kinds(x.t)):
+                if x.cells or self.lead_kinds(x.t) & {'tensor', 'mat1'}:
+                    return self.read_cell(x, i, j, node)
+            return base(x)
+        cells = {}
+        for (i, j) in sorted(keys):
+            cells[(i, j)] = self.arith_terms(op, cell(a, i, j), cell(b, i, j), node)
+        return self.arith_terms(op, base(a), base(b), node), cells
 
     def masked_arith(self, op, a, b, node):
         cond = None
@@ -1852,6 +2015,27 @@ class Interp(object):
     _CMP = {'Gt': '>', 'GtE': '>=', 'Lt': '<', 'LtE': '<=', 'Eq': '==', 'NotEq': '!='}
 
     def compare(self, op, a, b, node):
+        if op in ('Is', 'IsNot', 'Eq', 'NotEq') and isinstance(a, (Lib, ClassRef)) and isinstance(b, (Lib, ClassRef)):
+            # type objects: type(x) is list, type(a) == type(b)
+            pos = op in ('Is', 'Eq')
+            if isinstance(a, ClassRef) or isinstance(b, ClassRef):
+                r = isinstance(a, ClassRef) and isinstance(b, ClassRef) and a.cls is b.cls
+                return Const(r if pos else not r)
+            num = [x for x in (a, b) if x.name == 'builtins.<number>']
+            if len(num) == 1:
+                other = b if num[0] is a else a
+                if other.name in ('builtins.int', 'builtins.float'):
+                    c = P.Cond.flag('type(%s) is int' % N.show(num[0].of)[:60])
+                    if other.name == 'builtins.float':
+                        c = ~c
+                    return Mask(c if pos else ~c, 'scalar')
+                return Const(not pos)
+            if len(num) == 2:
+                if num[0].of.equals(num[1].of):
+                    return Const(pos)
+                raise Unsupported('comparison of the types of two symbolic numbers', node)
+            r = a.name == b.name
+            return Const(r if pos else not r)
         if op in ('Is', 'IsNot'):
             if isinstance(a, Unknown) or isinstance(b, Unknown):
                 raise Unsupported('identity test on unknown value', node)
@@ -1870,11 +2054,15 @@ class Interp(object):
             return Const(r if op == 'Is' else not r)
         if op in ('In', 'NotIn'):
             if isinstance(b, Obj) and b.cls == 'dict':
+                self.touch(b, 'r', node)
                 hk = self.lib._dict_key(a, node)
                 found = hk in b.attrs['items']
                 return Const(found if op == 'In' else not found)
             if isinstance(b, Seq):
+                if b.kind in ('list', 'set'):
+                    self.touch(b, 'r', node)
                 found = False
+                maybe = None
                 for x in b.items:
                     if x is a:
                         found = True
@@ -1885,10 +2073,15 @@ class Interp(object):
                         raise Raised('ValueError', 'The truth value of an array with more than one element is ambiguous '
                                      '(membership test compares an ndarray with %r)' % (getattr(a, 'v', a),), self.loc(node))
                     e = self.compare('Eq', a, x, node)
+                    if isinstance(e, Mask) and e.kind == 'scalar' and isinstance(a, Lib):
+                        maybe = e.cond if maybe is None else (maybe | e.cond)
+                        continue
                     if not isinstance(e, Const):
                         raise Unsupported('membership with symbolic equality', node)
                     if e.v:
                         found = True
+                if maybe is not None and not found:
+                    return Mask(maybe if op == 'In' else ~maybe, 'scalar')
                 return Const(found if op == 'In' else not found)
             raise Unsupported('membership in %r' % (b,), node)
         sym = self._CMP.get(op)
@@ -1916,14 +2109,26 @@ class Interp(object):
         if isinstance(a, Seq) and isinstance(b, Seq) and sym in ('==', '!='):
             # tuples / lists compare elementwise (a list never equals a tuple)
             eq = len(a.items) == len(b.items) and (a.kind == b.kind or {a.kind, b.kind} <= {'tuple'} or a.kind == b.kind)
+            cond = None
             if eq:
                 for x, y in zip(a.items, b.items):
                     e = self.compare('Eq', x, y, node)
+                    if isinstance(e, Mask) and e.kind == 'scalar':
+                        # symbolic elements: the sequences are equal where every element comparison holds
+                        if e.cond.is_true():
+                            continue
+                        if e.cond.is_false():
+                            eq = False
+                            break
+                        cond = e.cond if cond is None else (cond & e.cond)
+                        continue
                     if not isinstance(e, Const):
                         raise Unsupported('sequence comparison with symbolic elements', node)
                     if not e.v:
                         eq = False
                         break
+            if eq and cond is not None:
+                return Mask(cond if sym == '==' else ~cond, 'scalar')
             return Const(eq if sym == '==' else not eq)
         if isinstance(a, Const) and isinstance(b, Const):
             enum_m = self.enum_method(a, '__eq__' if sym == '==' else ('__ne__' if sym == '!=' else None))
@@ -1976,6 +2181,11 @@ class Interp(object):
 
     # ---- subscripts ------------------------------------------------------------------------------
     def eval_index(self, sl, env):
+        if not isinstance(sl, (ast.Slice, ast.Tuple)):
+            v = self.eval(sl, env)
+            if isinstance(v, Const) and getattr(v, 'slice_parts', None) is not None:
+                return ('slice',) + tuple(v.slice_parts)        # x[s] with s = slice(a, b) is x[a:b]
+            return ('value', v)
         if isinstance(sl, ast.Slice):
             lo = self.eval(sl.lower, env) if sl.lower is not None else None
             hi = self.eval(sl.upper, env) if sl.upper is not None else None
@@ -2075,6 +2285,12 @@ class Interp(object):
                 return Seq(o.items[lo:hi], o.kind)
             raise Unsupported('sequence index', node)
         if isinstance(o, (Arr, View, Num)) and getattr(o, 'kind', None) == 'array':
+            if idx[0] == 'value' and isinstance(idx[1], Seq) and idx[1].items and all(is_const_num(i) for i in idx[1].items):
+                # x[[i, j, ...]] with literal positions: a new array holding the selected elements (a copy, never a view)
+                t, _ = self.term_of(o, node)
+                if P.is_pw(t):
+                    raise Unsupported('fancy index on a piecewise term', node)
+                return Num(N.fn('take', t, *[N.NF.const(int(num_value(i))) for i in idx[1].items]), 'array')
             d = self.classify_array_index(idx, node)
             if d[0] == 'reshaped-by-None':
                 t, _ = self.term_of(o, node)
@@ -2178,6 +2394,9 @@ class Interp(object):
 
     def ev_ListComp(self, node, env):
         return self.lib.listcomp(self, node, env)
+
+    def ev_SetComp(self, node, env):
+        return self.lib.setcomp(self, node, env)
 
     def ev_DictComp(self, node, env):
         return self.lib.dictcomp(self, node, env)
